@@ -236,7 +236,7 @@ CLAIM = {
     "text": "Does not decide consolidator shape / chunk arithmetic. Decides that concatenate_stream_datums builds its index and seq_num ranges with the "
             "same (first.start, last.stop) selectors after one sort, that the descriptor / resource uniqueness tests and the pairwise contiguity "
             "test dominate the result, and that the consolidator maps each consumed seq_num range onto the index range of the same document.",
-    "technique": "sibling agreement of the two range constructions; guard dominance",
+    "technique": "sibling agreement of the two range constructions resolved through reaching definitions to the sorted input; guard dominance; truth-table evaluation of the chunking guard",
 }
 
 T = "callbacks/tiled_writer.py"
